@@ -506,7 +506,7 @@ std::string strip_line(const std::string& s) { size_t c = s.rfind(':'); return c
 
 std::vector<uintptr_t> g_watch;
 struct RunResult { bool ran = false; int status = 0; bool timeout = false; };
-RunResult run_child(Body body, const std::vector<uint8_t>& prefix, const std::vector<Point>* prefix_pts, bool verbose, bool lenient = false) {
+RunResult run_child_once(Body body, const std::vector<uint8_t>& prefix, const std::vector<Point>* prefix_pts, bool verbose, bool lenient, double limit_s) {
    if (!sh) { sh = (Shared*)mmap(nullptr, sizeof(Shared), PROT_READ | PROT_WRITE, MAP_SHARED | MAP_ANONYMOUS, -1, 0); if (sh == MAP_FAILED) { perror("mmap"); exit(3); } }
    sh->n_prefix = (int)prefix.size(); for (size_t i = 0; i < prefix.size(); ++i) { sh->prefix[i] = prefix[i]; sh->prefix_n[i] = prefix_pts ? (*prefix_pts)[i].n : 0; sh->prefix_tid[i] = prefix_pts ? (*prefix_pts)[i].tid : 0; }
    sh->n_watch = (int)g_watch.size(); for (size_t i = 0; i < g_watch.size(); ++i) sh->watch[i] = g_watch[i];
@@ -529,10 +529,16 @@ RunResult run_child(Body body, const std::vector<uint8_t>& prefix, const std::ve
    for (;;) {
       pid_t w = waitpid(pid, &st, WNOHANG);
       if (w == pid) break;
-      if (std::chrono::duration<double>(std::chrono::steady_clock::now() - t0).count() > 10.0) { kill(pid, SIGKILL); waitpid(pid, &st, 0); r.timeout = true; break; }
+      if (std::chrono::duration<double>(std::chrono::steady_clock::now() - t0).count() > limit_s) { kill(pid, SIGKILL); waitpid(pid, &st, 0); r.timeout = true; break; }
       struct timespec ts = {0, 200000}; nanosleep(&ts, nullptr);
    }
    r.ran = true; r.status = st; return r;
+}
+// a schedule that does not finish within 10 s is re-run alone with 60 s before it is called a hang (a loaded machine is not a livelock)
+RunResult run_child(Body body, const std::vector<uint8_t>& prefix, const std::vector<Point>* prefix_pts, bool verbose, bool lenient = false) {
+   RunResult r = run_child_once(body, prefix, prefix_pts, verbose, lenient, 10.0);
+   if (r.timeout) r = run_child_once(body, prefix, prefix_pts, verbose, lenient, 60.0);
+   return r;
 }
 void add_finding(std::map<std::string, Finding>& f, const std::string& sig, const std::string& detail, const std::vector<uint8_t>& sched) {
    auto it = f.find(sig); if (it == f.end() || sched.size() < it->second.schedule.size()) f[sig] = Finding{sig, detail, sched};
@@ -541,7 +547,7 @@ void add_finding(std::map<std::string, Finding>& f, const std::string& sig, cons
 void harvest(const char* name, const RunResult& rr, const std::vector<uint8_t>& prefix, Stats& st, std::map<std::string, Finding>& findings, std::vector<uint8_t>& full_choices) {
    full_choices.clear(); for (int i = 0; i < sh->n_points; ++i) full_choices.push_back(sh->pts[i].chosen);
    std::string sched = schedule_text(full_choices), nm = name;
-   if (rr.timeout) { ++st.hangs; add_finding(findings, nm + "|hang", "execution did not finish within 10 s (schedule prefix " + schedule_text(prefix) + ")", prefix); return; }
+   if (rr.timeout) { ++st.hangs; add_finding(findings, nm + "|hang", "execution did not finish within 10 s and, re-run alone, not within 60 s (schedule prefix " + schedule_text(prefix) + ")", prefix); return; }
    if (sh->divergence) { add_finding(findings, "harness:divergence|" + nm, std::string("replay of a recorded prefix diverged: ") + sh->note, prefix); return; }
    if (!(WIFEXITED(rr.status) && WEXITSTATUS(rr.status) == 0 && sh->done == 1)) {
       char b[200]; if (WIFSIGNALED(rr.status)) snprintf(b, sizeof b, "child killed by signal %d", WTERMSIG(rr.status)); else snprintf(b, sizeof b, "child exit status %d (%s)", WIFEXITED(rr.status) ? WEXITSTATUS(rr.status) : -1, sh->note);
